@@ -145,6 +145,16 @@ def gen_cases(chk):
                 h += [rng.choice(("d:0", "m:0", "f"))]
         obs, _ = gen_compress(rng, "CCkc")
         cases.append((cfg, h, obs))
+    # observed: SZ_compress_customize("SZ") with a parameter block of its own (it initialises the library with that block and compresses): the block
+    # is the configuration of the pair, whatever was initialised, compressed or left behind before
+    for k in range(40 if thorough else 12):
+        cfg = rng.choice(CFGS)
+        h = gen_history(rng, 6, threadsafe=0.15)
+        tok, _ = gen_compress(rng, "c")
+        f = tok.split(":")
+        if int(f[1], 16) < 2 and k % 2 == 0:
+            f[3] = dbits(struct.unpack("<d", struct.pack("<Q", int(f[3], 16)))[0] * 37.0)      # a bound unlike the configured one
+        cases.append((cfg, h, "U:" + ":".join(f[1:])))
     # value-range protection: what the decompressor clamps to must come from the stream, not from whatever was compressed last
     for ty in (0, 1):
         for big, small in ((100.0, 1.0), (1.0, 100.0)):
